@@ -367,7 +367,7 @@ def m_list(eng, st, args, kwargs, node):
         g = o.get
         return st.alloc(HSeq(o.len, lambda k: VTuple([VInt(k), g(k)])))
     o = seq_of(eng, st, v, node)
-    return st.alloc(HSeq(o.len, o.get, etype=o.etype))
+    return st.alloc(HSeq(o.len, o.get, etype=o.etype, note=o.note if (o.note and o.note[0] == "chain") else None))
 
 
 def m_isinstance(eng, st, args, kwargs, node):
